@@ -464,6 +464,7 @@ func main() {
 			}
 		}
 	}
+	facts["noReentrantLocking"] = len(reentrantLocking(files)) == 0
 	sort.Strings(commands)
 	var sb strings.Builder
 	sb.WriteString("/-! GENERATED by harness/cmd/extract from /repo's source on every check run. Do not edit. -/\n")
@@ -516,6 +517,109 @@ func main() {
 		}
 	}
 	fmt.Printf("extract: %d access sites, %d commands, %d facts\n", len(table), len(commands), len(facts))
+}
+
+// reentrantLocking finds methods that, while holding a mutex field of their receiver, call a method of the same
+// receiver that acquires the same mutex again (directly or through further same-receiver calls). With sync.Mutex that
+// is a self-deadlock at once; with sync.RWMutex read locks it deadlocks as soon as a writer arrives in between.
+func reentrantLocking(files []*ast.File) []string {
+	type acq struct {
+		mu  string
+		pos token.Pos
+	}
+	type call struct {
+		name string
+		pos  token.Pos
+	}
+	type info struct {
+		acqs    []acq
+		unlocks map[string][]token.Pos // explicit (not deferred) unlocks
+		calls   []call
+	}
+	methods := map[string]*info{}
+	isLock := func(n string) bool { return n == "Lock" || n == "RLock" }
+	isUnlock := func(n string) bool { return n == "Unlock" || n == "RUnlock" }
+	for _, f := range files {
+		for _, d := range f.Decls {
+			fd, ok := d.(*ast.FuncDecl)
+			if !ok || fd.Body == nil || fd.Recv == nil || len(fd.Recv.List) == 0 || len(fd.Recv.List[0].Names) == 0 {
+				continue
+			}
+			typ, recv := recvType(fd)
+			in := &info{unlocks: map[string][]token.Pos{}}
+			methods[typ+"."+fd.Name.Name] = in
+			deferred := map[ast.Node]bool{}
+			ast.Inspect(fd.Body, func(n ast.Node) bool {
+				if ds, ok := n.(*ast.DeferStmt); ok {
+					deferred[ds.Call] = true
+				}
+				ce, ok := n.(*ast.CallExpr)
+				if !ok {
+					return true
+				}
+				se, ok := ce.Fun.(*ast.SelectorExpr)
+				if !ok {
+					return true
+				}
+				// recv.mu.Lock()
+				if inner, ok := se.X.(*ast.SelectorExpr); ok {
+					if id, ok := inner.X.(*ast.Ident); ok && id.Name == recv {
+						switch {
+						case isLock(se.Sel.Name):
+							in.acqs = append(in.acqs, acq{inner.Sel.Name, ce.Pos()})
+						case isUnlock(se.Sel.Name) && !deferred[ce]:
+							in.unlocks[inner.Sel.Name] = append(in.unlocks[inner.Sel.Name], ce.Pos())
+						}
+					}
+				}
+				// recv.Method(...)
+				if id, ok := se.X.(*ast.Ident); ok && id.Name == recv {
+					in.calls = append(in.calls, call{se.Sel.Name, ce.Pos()})
+				}
+				return true
+			})
+		}
+	}
+	// which mutexes a method acquires, transitively through same-receiver calls
+	var acquires func(key string, seen map[string]bool) map[string]bool
+	acquires = func(key string, seen map[string]bool) map[string]bool {
+		out := map[string]bool{}
+		in := methods[key]
+		if in == nil || seen[key] {
+			return out
+		}
+		seen[key] = true
+		for _, a := range in.acqs {
+			out[a.mu] = true
+		}
+		typ := key[:strings.IndexByte(key, '.')]
+		for _, c := range in.calls {
+			for m := range acquires(typ+"."+c.name, seen) {
+				out[m] = true
+			}
+		}
+		return out
+	}
+	var bad []string
+	for key, in := range methods {
+		typ := key[:strings.IndexByte(key, '.')]
+		for _, a := range in.acqs {
+			// held from the acquisition to the first explicit unlock behind it (to the end when the unlock is deferred)
+			end := token.Pos(1 << 60)
+			for _, u := range in.unlocks[a.mu] {
+				if u > a.pos && u < end {
+					end = u
+				}
+			}
+			for _, c := range in.calls {
+				if c.pos > a.pos && c.pos < end && acquires(typ+"."+c.name, map[string]bool{})[a.mu] {
+					bad = append(bad, key+" holds "+a.mu+" and calls "+c.name)
+				}
+			}
+		}
+	}
+	sort.Strings(bad)
+	return bad
 }
 
 func quoteJoin(ss []string) string {
